@@ -2,6 +2,7 @@ package eng
 
 import (
 	"go/token"
+	"io/fs"
 
 	"golang.org/x/tools/go/ssa"
 )
@@ -110,6 +111,12 @@ func BitTest(v ssa.Value) (operand ssa.Value, mask int64, setWhenTrue bool, ok b
 	r, isR := ConstInt(rhs)
 	if !isR {
 		return nil, 0, false, false
+	}
+	// mode.Type()&bit tests the same bit as mode&bit when the bit is a type bit
+	if call, isCall := Canon(operand).(*ssa.Call); isCall {
+		if cal := call.Call.StaticCallee(); cal != nil && cal.String() == "(io/fs.FileMode).Type" && len(call.Call.Args) == 1 && m&int64(fs.ModeType) == m {
+			operand = call.Call.Args[0]
+		}
 	}
 	switch {
 	case r == 0:
